@@ -56,6 +56,25 @@ def run_case(case) -> Outcome:
     node = canopen.RemoteNode(NODE, build_od([]))
     net.add_node(node)
     node.sdo.RESPONSE_TIMEOUT = 0.004
+    pre = case.get("pre")
+    if pre:
+        # an earlier block upload of another object through the same client, given up half-way with
+        # part of a segment still un-read; nothing of it may show up in the transfer under test
+        srv.store[(0x2FFF, 1)] = bytes([0xEE]) * pre["len"]
+        try:
+            fp0 = node.sdo.open(0x2FFF, 1, "rb", block_transfer=True, buffering=pre.get("buffering", 0))
+            if pre.get("buffering", 0) == 0:
+                fp0.readinto(bytearray(pre.get("k", 4)))
+            else:
+                fp0.read(pre.get("k", 4))
+            fp0.close()
+        except SdoError:
+            pass
+        srv._reset()
+        srv.errors.clear()
+        srv.acks = [] if srv.acks is not None else None
+        srv.completed_block_uploads = 0
+        srv.client_aborts = type(srv.client_aborts)()
     fault = case.get("fault")
     hit = {"n": 0, "seg": 0}
 
@@ -214,6 +233,10 @@ def enum_undisturbed():
                     b, r = ROUTES[i % len(ROUTES)]
                     yield {"len": n, "salt": i % 17, "crc_req": crc_req, "crc_srv": crc_srv,
                            "size_ind": size_ind, "blksize": blk, "buffering": b, "reads": r}
+                    if i % 11 == 0:
+                        yield {"len": n, "salt": i % 17, "crc_req": crc_req, "crc_srv": crc_srv,
+                               "size_ind": size_ind, "blksize": blk, "buffering": b, "reads": r,
+                               "pre": {"len": (20, 8, 2000)[i % 3], "k": 1 + i % 6, "buffering": (0, 1024)[i % 2]}}
 
 
 def enum_faults():
@@ -253,6 +276,9 @@ def rand_case(draw, max_len):
                                    st.lists(st.integers(1, 9), min_size=1, max_size=2).map(lambda l: l + [None]),
                                    st.lists(st.one_of(st.integers(-9, -1), st.integers(1, 9), st.none()),
                                             min_size=1, max_size=4)))
+    if draw(st.integers(0, 4)) == 0:
+        case["pre"] = {"len": draw(st.sampled_from([8, 20, 100, 2000])), "k": draw(st.integers(1, 6)),
+                       "buffering": draw(st.sampled_from([0, 0, 1024]))}
     kind = draw(st.sampled_from(["none", "none", "drop", "flip", "crc", "end_n", "end_cs"]))
     if kind != "none":
         case["fault"] = {"kind": kind, "k": draw(st.integers(0, max(0, nsegs - 1))),
